@@ -869,3 +869,27 @@ def gen_falsy():
              ["set_data", 0, 2, None, 0, None], ["set_data", 2, 9, None, "", None], ["rename", 2, 9, 3], ["rename", 1, 5, 3],
              ["del", 0, {"id": 0}], ["del", 2, {"id": ""}], ["del", 1, {"id": 0}]]
     yield dict(univ=univ, setup=setup, alts=alts, label="falsy", n=10)
+
+
+def gen_memo():
+    """id callbacks that tell EQUAL-comparing objects apart (they raise for one twin, by identity): after the other twin was
+    added / looked up, every lookup by the raising twin still has to raise (nothing about ids may be remembered per ==/hash)"""
+    univ = ["e:1", "e:1", "d:3", "d:3", "t:1,2", "t:1,2", "s:a", "s:new"]
+    setup = [["new", False, {"fn": "name", "raise": [1]}], ["new", False, {"fn": "hash", "raise": [3]}], ["new", False, {"fn": "mod7", "raise": [5]}],
+             ["add", 0, 0, 6, None, None, None], ["add", 1, 0, 6, None, None, None], ["add", 2, 0, 6, None, None, None]]
+    alts = []
+    for ti in (0, 1, 2):
+        for d in range(6):
+            alts.append(["add", ti, 0, d, None, None, None])
+            alts.append(["add", ti, ti + 1, d, None, None, None])
+            alts.append(["set_data", ti, ti + 1, d, None, None])
+    yield dict(univ=univ, setup=setup, alts=alts, label="memo", n=3)
+    # the same with the good twin already in the tree (its id was computed and looked up many times)
+    setup2 = setup + [["add", 0, 1, 0, None, None, None], ["add", 1, 2, 2, None, None, None], ["add", 2, 3, 4, None, None, None]]
+    alts2 = []
+    for ti in (0, 1, 2):
+        for d in range(6):
+            alts2.append(["add", ti, 0, d, None, None, None])
+            alts2.append(["set_data", ti, ti + 1, d, None, None])
+            alts2.append(["del", ti, {"d": d}])
+    yield dict(univ=univ, setup=setup2, alts=alts2, label="memo", n=6)
